@@ -1,4 +1,5 @@
 import OV.Model.C19Fusions
+import OV.Model.C19Core
 import OV.Drivers.Loop
 /-! Line-protocol driver for C19.  `C19 <family> key=value …` → the model's decision line
 (`count=… Op@domain{attrs}(inputs)->nout`).  Dims: `3` | `sN` | `?`; shapes `2,sB,?` | `-` (rank 0) |
@@ -46,7 +47,7 @@ def pFAttrs (s : String) : Option FAttrs :=
   | [a, b, ba, bb, al] => some ⟨pOptInt a, pOptInt b, pOptInt ba, pOptInt bb, pOptFloat al⟩
   | _ => none
 
-def handle (args : List String) : String :=
+def handle1 (args : List String) : String :=
   match args with
   | [] => "ERR:empty"
   | fam :: rest =>
@@ -128,7 +129,35 @@ def handle (args : List String) : String :=
                  startConst := pBool (g "start_const"), allowzero := pOptInt (g "allowzero"), perm := pInts (g "perm"),
                  shapeStart := pOptInt (g "shape_start"), shapeEnd := pOptInt (g "shape_end"),
                  dimsKnown := pBool (g "dims_known") }
+    | "coretable" =>
+      -- what the model assumes about `_core.py` (compared row by row with harness/c19_extract.py's reading)
+      let rows (l : List (String × String × String)) := "¶".intercalate (l.map fun r => s!"{r.1}§{r.2.1}§{r.2.2}")
+      let lists (l : List (List String)) := "¶".intercalate (l.map fun r => "§".intercalate r)
+      match g "which" with
+      | "fuseXformersSteps" => rows xformersOrder
+      | "preOptimizeSteps" => rows preOptimizeOrder
+      | "optimizeForOrtSteps" => rows optimizeForOrtOrder
+      | "ortPatternRules" => "¶".intercalate ortRuleOrder
+      | "sdpaDefaultScaleTest" => lists sdpaIscloseKw
+      | "softmaxRuleOrder" => lists softmaxOrder
+      | "stageKeys" => ",".intercalate (stageKeys xformersOrder)
+      | _ => "ERR:which"
     | _ => "ERR:family"
+
+/-- `second <family> k=v…`: predicted counts of a SECOND application of the family's fuse entry point on its own
+output (`*` = not tied); everything else: the family's decision line. -/
+def handle (args : List String) : String :=
+  match args with
+  | "second" :: rest =>
+    match rest with
+    | "pipe" :: kvs =>
+      let g2 := kv kvs
+      pipeSecond { qm := pShapeD (g2 "qm"), heads := pNat (g2 "heads"), qProj := g2 "q_proj", kb := pBool (g2 "kb"),
+                   vb := pBool (g2 "vb"), s := pFloat (g2 "s"), sdpaScale := pOptFloat (g2 "sdpa_scale"),
+                   mask := pBool (g2 "mask"), mask1d := pBool (g2 "mask1d") }
+    | "rope" :: _ => ropeSecondLine (handle1 rest)
+    | _ => zerosLike (handle1 rest)
+  | _ => handle1 args
 
 end OV.Drivers.C19
 
